@@ -74,6 +74,24 @@ def run(ck, F):
     reach, edges = reachable(F, roots)
     ck.extra['reachable_functions'] = len(reach)
 
+    # which node a request yields must not depend on what unrelated requests came before it: a table that finds `equal` what is
+    # not equal hands the first requester's node to the second, and the two Lexicons' histories then show in the text
+    import keyrule
+    import wire
+    K = keyrule.KeyChecker(ck, F, 'C17')
+    for r in (K.R_diag, K.R_lex, K.R_atom):
+        ck.rules[r]['desc'] = ('(the node a unifying factory returns depends on the request only, not on which other requests an '
+                               'unrelated part of the program made earlier in that Lexicon) ' + ck.rules[r]['desc'])
+    cur = wire.compute(F)
+    for fid in sorted(cur):
+        if any((p.get('origin') or '').startswith('unified') for p in cur[fid]) and F.fn[fid].get('parent') in contracts.FACTORY_CLASSES:
+            K.factory(F.fn[fid])
+    K.finish_cover()
+    K.finish_partial(())
+    for r in (K.R_diag, K.R_lex):
+        ck.rules[r]['floor'] = 30
+    ck.rules[K.R_atom]['floor'] = 2
+
     R1 = ck.rule('C17.no-address-text', 'no function reachable from the printer inserts a pointer into the stream, converts a '
                  'pointer to an integer or prints type_info text', floor=300)
     R2 = ck.rule('C17.ordered-iteration', 'no iteration reachable from the printer ranges over a hashed container, an ordered container keyed '
@@ -250,6 +268,49 @@ def run(ck, F):
                     if oid in s2.heap and s2.heap[oid].fields != st.heap[oid].fields:
                         bad.append('fields of ' + contracts.short(s2.heap[oid].cls))
             ck.check(R5b, inst, not bad, f'{inst} writes to the graph: {sorted(set(bad))[:3]}', loc=fn['loc'], fn=fn['id'])
+
+    # ---------------------------------------------------------------- locations are printed for every statement printed
+    R6b = ck.rule('C17.locations-printed', 'every dispatch of a node that may be a statement (its static type derives from ipr::Stmt, or is a '
+                  'base of it) into one of the visitors that print statements and declarations is preceded, in the same function, by '
+                  'a call of the location printer on that same node: a statement printed by re-using the current visitor skips its location', floor=2)
+
+    def bare(x):
+        # the expression without conversions, line numbers and types: two mentions of the same node compare equal
+        if isinstance(x, dict):
+            if x.get('k') == 'cast' and x.get('ck') in ('DerivedToBase', 'UncheckedDerivedToBase', 'NoOp', 'LValueToRValue'):
+                return bare(x.get('e'))
+            return tuple(sorted((k, bare(v)) for k, v in x.items() if k not in ('ln', 't', 'col')))
+        if isinstance(x, list):
+            return tuple(bare(v) for v in x)
+        return x
+
+    def stripc(x):
+        while isinstance(x, dict) and x.get('k') == 'cast' and x.get('ck') in ('DerivedToBase', 'UncheckedDerivedToBase', 'NoOp'):
+            x = x.get('e')
+        return x or {}
+
+    def cls_of(t):
+        return (t or '').replace('const ', '').rstrip('&* ').strip()
+    sites = []
+    for fid, f in pf.items():
+        prints = [(n.get('ln', 0), bare((n.get('args') or [None, None])[1])) for n in walk(f.get('body'))
+                  if n.get('k') == 'call' and (n.get('callee') or {}).get('q', '').endswith('Location_printer::print') and len(n.get('args') or []) == 2]
+        for n in walk(f.get('body')):
+            if n.get('k') == 'call' and (n.get('callee') or {}).get('name') == 'accept' and n.get('obj') is not None and n.get('args'):
+                sites.append((f, n, cls_of(stripc(n['obj']).get('t')), cls_of(stripc(n['args'][0]).get('t')), prints))
+    located = {v for f, n, rt, v, prints in sites if prints and v in F.rec}
+    if len(located) < 2:
+        raise AnalysisBroken(f'visitors dispatched into next to a location-printer call: {sorted(located)} (the statement and the declaration printers expected)')
+    for f, n, rt, v, prints in sorted(sites, key=lambda x: (x[0]['id'], x[1].get('ln', 0))):
+        if v not in located or rt not in F.rec:
+            continue
+        if not (rt == 'ipr::Stmt' or F.derives_from(rt, 'ipr::Stmt') or F.derives_from('ipr::Stmt', rt)):
+            continue
+        me = bare(n['obj'])
+        ok = any(ln <= n.get('ln', 0) and b == me for ln, b in prints)
+        ck.check(R6b, f'{contracts.short(contracts.fn_qname(f["id"]))}:{contracts.short(rt)}->{contracts.short(v)}', ok,
+                 f'{f["id"]} (line {n.get("ln")}) dispatches a {contracts.short(rt)} into {contracts.short(v)} without printing its location first: '
+                 'with print_locations enabled the location of that node never appears', loc=f['loc'], fn=f['id'])
 
     # ---------------------------------------------------------------- locations
     R6 = ck.rule('C17.locations-gated', 'source / unit locations are read only by the location printer, which is created only under '
